@@ -24,7 +24,7 @@ that the Fried stencil geometry is Fried's.
 """
 import ast
 
-from ..common import get_index, nf, check_equal, same_value
+from ..common import get_index, nf, check_equal, same_value, purity_obligations, merged_paths
 from ..index import norm_text
 from ..interp import Interp, Obj, has_unknown, unknown_atoms
 from ..plf import Rat, Sym, Fn, find_atoms
@@ -180,9 +180,10 @@ def run(rep, tier, root=None):
         rep.functions_analysed.add(m.fq)
         a_ = o.attrs.get("A_mat")
         want = Rat.atom(Fn("dot", (A("cov_mat_xz"), Rat.atom(Fn("inv", (A("cov_mat_zz"),))))))
-        alt = Rat.atom(Fn("dot", (A("cov_mat_xz"), Rat.atom(Fn("pinv", (A("cov_mat_zz"), None))))))
-        rep.check(a_ is not None and (same_value(a_, want) or same_value(a_, alt)), "K3.A-matrix", "%s.makeAMatrix: A = Cov_xz . inv(Cov_zz)" % tag,
-                  "A = %s" % nf(a_, 200), m.where())
+        rep.check(a_ is not None and same_value(a_, want), "K3.A-matrix",
+                  "%s.makeAMatrix: A = Cov_xz . inv(Cov_zz) on every path that does not raise" % tag,
+                  "A = %s: only the exact inverse gives A Cov_zz = Cov_xz (a pseudo-inverse / regularised fallback of an ill-conditioned "
+                  "Cov_zz does not, and the row recursion built from it is unstable)" % nf(a_, 260), m.where())
 
         # ---- K4/K5 B matrix
         m, I, o, paths = run_method(ix, cls, "makeBMatrix")
@@ -230,6 +231,27 @@ def run(rep, tier, root=None):
         # ---- K12 constructor order
         init = M("__init__")
         order_rule(rep, ix, cls, init)
+    # ---- K10 the covariance function itself is the von Karman law on every path (constants: C08)
+    from .c08 import NOT_POINTWISE
+    fpc = ix.func("aotools.turbulence.turb", "phase_covariance")
+    rep.functions_analysed.add(fpc.fq)
+    rr, r0_, L0_ = Rat.sym("r", ("array",)), Rat.sym("r0"), Rat.sym("L0")
+    cv = merged_paths(Interp(ix), fpc, [rr, r0_, L0_])
+    if not isinstance(cv, Rat) or has_unknown(cv):
+        rep.unknown("K10.covariance-law", fpc.fq, "cannot normalise the covariance function", fpc.where())
+    else:
+        npw = [a for a in cv.atoms() if isinstance(a, Fn) and a.name in NOT_POINTWISE]
+        st = cv.single_term()
+        kvs = [a for a, e in (st[1] if st else ()) if isinstance(a, Fn) and a.name == "kv"]
+        rep.check(not npw and st is not None and len(kvs) == 1, "K10.covariance-law",
+                  fpc.fq + ": one elementwise closed form k (L0/r0)^(5/3) x^(5/6) K_5/6(x) for every separation",
+                  "the covariance is not a single elementwise Bessel law for all separations (%s): the stencil and the new row can span "
+                  "separations on which Cov is then not the von Karman covariance" % (sorted(set(a.name for a in npw)) or nf(cv, 200)), fpc.where())
+    # ---- K13 every instance builds its matrices from its own parameters only
+    funcs = [f for f in mod.all_functions()]
+    purity_obligations(rep, ix, funcs + [fpc], "K13.no-shared-state",
+                       "matrices of one screen depend on screens constructed earlier in the process",
+                       internal_out_params={(MOD + ":calc_seperations_fast", "seperations")})
     rep.floor("C04 obligations", len(rep.obligations), 40)
 
 
